@@ -237,3 +237,19 @@ Definition unit_cases_failing (cs : list (nat * (nat * graph * graph))) : list n
 (* the crossing counter on a synthetic proper layering: the model's count must be the implementation's *)
 Definition cross_failing (cs : list (nat * (graph * Z))) : list nat :=
   flat_map (fun c => let '(i, (g, k)) := c in if (reported_crossings g =? k)%Z then [] else [i]) cs.
+
+(* a positioner (phase 4) on a synthetic proper layering: algorithm code 1 SinkColoring, 2 VAlign, 3 PackRight,
+   4 NetworkSimplex, 5 Brandes-Koepf (with its layout parameter); default thoroughness 28 and weight factor 4 *)
+Definition pos_check (alg : nat) (bk : Z) (ns ls : Q) (before after : graph) : list nat :=
+  let p := mkP4 ns ls 28 4 in
+  cmp_res 6 (match alg with
+             | 1%nat => phase4 SinkColoring p before
+             | 2%nat => phase4 VAlign p before
+             | 3%nat => phase4 PackRight p before
+             | 4%nat => phase4 NsPositioner p before
+             | _ => phase4_bk bk p before
+             end) after.
+
+Definition pos_failing (cs : list (nat * (nat * Z * Q * Q * graph * graph))) : list nat :=
+  flat_map (fun c => let '(i, (alg, bk, ns, ls, b, a)) := c in
+                     match pos_check alg bk ns ls b a with [] => [] | _ => [i] end) cs.
